@@ -32,10 +32,7 @@ PEER = ['reply', 'eos', 'disc']
 # close: their interleavings are regressions now (Witness theorems + corpus/C20, must pass).  What remains of the queue's
 # single `_recv_task` slot cannot block for ever any more on the repaired tree (the forgotten receiver gets StateError once
 # the thread has exited); the entry stays for trees without 1753c2b.
-KNOWN_LOCAL = [
-    {'id': 'C20-concurrent-receive', 'property': 'C20', 'status': 'known', 'signature': {'kind': 'concurrent-receive'},
-     'what': 'two receive() calls blocked at once: the queue keeps one _recv_task; closing wakes only that one, the other blocks for ever'},
-]
+KNOWN_LOCAL = []      # nothing pending: C20-concurrent-receive cannot block for ever since /repo 1753c2b (recorded as `fixed`)
 
 
 # =====================================================================================================================
